@@ -176,7 +176,7 @@ theorem get_fst (c : Cfg) (p : Pair) (k : Key) : (get c p k).1 =
     let q := ({ p with round := p.round + 1 } : Pair).setRep f ((p.rep f).bump .get)
     if firstNF p k then (finish2 f.other (replSingle (c.toward f) f.other f q k)).1 else q := by
   unfold get firstNF
-  simp only [getOn_snd, getOn_fst, rep_round]
+  simp only [getOn_snd, getOn_fst]
   cases (p.rep (firstSide p)).faultAt .get with
   | some c1 => by_cases hc : c1 = nf <;> simp [hc]
   | none => cases (p.rep (firstSide p)).store k <;> simp [nf]
@@ -208,7 +208,61 @@ theorem get_store (c : Cfg) (p : Pair) (k : Key) (t : Side) (k' : Key) :
   by_cases h : firstNF p k = true
   · simp only [h, if_true, true_and]
     exact stage2_store _ p _ k _ t k'
-  · simp only [h, false_and, if_false]
+  · simp only [h]
     exact congrFun (store_setRep_bump { p with round := p.round + 1 } (firstSide p) t .get) k'
+
+/-- Replica `s` answers (or would answer) NOT_FOUND to a `Get` of `k`. -/
+def saidNF (p : Pair) (s : Side) (k : Key) : Prop :=
+  match (p.rep s).faultAt .get with
+  | some c => c = nf
+  | none => (p.rep s).store k = none
+
+theorem firstNF_iff (p : Pair) (k : Key) : firstNF p k = true ↔ saidNF p (firstSide p) k := by
+  unfold firstNF saidNF
+  cases (p.rep (firstSide p)).faultAt .get <;> simp
+
+theorem get_ok_cases (c : Cfg) (p : Pair) (k : Key) (v : Val) (h : (get c p k).2 = .ok v) :
+    ((p.rep (firstSide p)).faultAt .get = none ∧ (p.rep (firstSide p)).store k = some v) ∨
+    (saidNF p (firstSide p) k ∧ (p.rep (firstSide p).other).faultAt .get = none ∧
+      (p.rep (firstSide p).other).store k = some v ∧
+      (c.toward (firstSide p) = .local → (p.rep (firstSide p)).faultAt .put = none)) := by
+  rw [get_snd] at h
+  simp only [stage2] at h
+  unfold saidNF
+  cases hf : (p.rep (firstSide p)).faultAt .get <;> cases hs : (p.rep (firstSide p)).store k <;>
+    cases ho : (p.rep (firstSide p).other).faultAt .get <;> cases hso : (p.rep (firstSide p).other).store k <;>
+    cases hst : c.toward (firstSide p) <;> cases hp : (p.rep (firstSide p)).faultAt .put <;>
+    (try dsimp only at h) <;> (repeat' split at h) <;> (try simp_all)
+
+theorem get_error_cases (c : Cfg) (p : Pair) (k : Key) (e : Err) (h : (get c p k).2 = .error e) (hne : e.code ≠ nf) :
+    (e = ⟨e.code, [.backend (firstSide p)], .fault (firstSide p) .get ((p.rep (firstSide p)).cnt .get)⟩ ∧
+      (p.rep (firstSide p)).faultAt .get = some e.code) ∨
+    (saidNF p (firstSide p) k ∧
+      e = ⟨e.code, [.backend (firstSide p).other], .fault (firstSide p).other .get ((p.rep (firstSide p).other).cnt .get)⟩ ∧
+      (p.rep (firstSide p).other).faultAt .get = some e.code) ∨
+    (saidNF p (firstSide p) k ∧ c.toward (firstSide p) = .local ∧
+      e = ⟨e.code, [.backend (firstSide p).other, .repl], .fault (firstSide p) .put ((p.rep (firstSide p)).cnt .put)⟩ ∧
+      (p.rep (firstSide p)).faultAt .put = some e.code ∧
+      (p.rep (firstSide p).other).faultAt .get = none ∧ (p.rep (firstSide p).other).store k ≠ none) := by
+  rw [get_snd] at h
+  simp only [stage2] at h
+  unfold saidNF
+  obtain ⟨code, tags, origin⟩ := e
+  cases hf : (p.rep (firstSide p)).faultAt .get <;> cases hs : (p.rep (firstSide p)).store k <;>
+    cases ho : (p.rep (firstSide p).other).faultAt .get <;> cases hso : (p.rep (firstSide p).other).store k <;>
+    cases hst : c.toward (firstSide p) <;> cases hp : (p.rep (firstSide p)).faultAt .put <;>
+    (try dsimp only at h) <;> (repeat' split at h) <;> (try simp_all)
+
+theorem get_nf_cases (c : Cfg) (p : Pair) (k : Key) (e : Err) (h : (get c p k).2 = .error e) (hc : e.code = nf)
+    (hput : (p.rep (firstSide p)).faultAt .put ≠ some nf) :
+    saidNF p (firstSide p) k ∧ saidNF p (firstSide p).other k ∧ e.tags = [] := by
+  rw [get_snd] at h
+  simp only [stage2] at h
+  unfold saidNF
+  obtain ⟨code, tags, origin⟩ := e
+  cases hf : (p.rep (firstSide p)).faultAt .get <;> cases hs : (p.rep (firstSide p)).store k <;>
+    cases ho : (p.rep (firstSide p).other).faultAt .get <;> cases hso : (p.rep (firstSide p).other).store k <;>
+    cases hst : c.toward (firstSide p) <;> cases hp : (p.rep (firstSide p)).faultAt .put <;>
+    (try dsimp only at h) <;> (repeat' split at h) <;> (try simp_all)
 
 end BB.Mirrored
